@@ -171,6 +171,32 @@ def c15_2(ck, prog):
         r.violation('load_message:same-count-leaves-loader-and-enters-message', lm.name, MSG, lm.line,
                     'the number of descriptors removed from the loader (%d sites) and given to the message '
                     '(%d sites) is no longer the single variable n_unix_fds' % (st['dec'], st['give']))
+    # what stays in the loader is what follows the descriptors just taken
+    mv = [c for b, i, c in lm.calls(('memmove', '__builtin_memmove', '__builtin___memmove_chk'))
+          if mentions(c['args'][0], lambda x: is_member(x, 'unix_fds', 'DBusMessageLoader'))]
+    for c in mv:
+        src = c['args'][1]
+        while src is not None and src.get('k') in ('cast', 'paren'):
+            src = src.get('e')
+        inner = strip_addr(src)
+        if inner is not None and inner.get('k') == 'sub':
+            base, off = inner['base'], inner['idx']
+        elif src is not None and src.get('k') == 'bin' and src['op'] == '+':
+            base, off = src['l'], src['r']
+        else:
+            base, off = None, None
+        cnt = c['args'][2]
+        okm = base is not None and is_member(base, 'unix_fds', 'DBusMessageLoader') and is_ref(off, 'n_unix_fds') \
+            and is_member(c['args'][0], 'unix_fds', 'DBusMessageLoader') \
+            and mentions(cnt, lambda x: is_member(x, 'n_unix_fds', 'DBusMessageLoader'))
+        key = 'load_message:surplus-compacted-from-after-the-taken-ones'
+        if okm:
+            r.ok(key)
+        else:
+            r.violation(key, lm.name, MSG, c['line'],
+                        'the descriptors that stay in the loader must be moved from unix_fds + <number just taken> '
+                        '(the local count given to the message) to the front, loader->n_unix_fds entries; found %s'
+                        % estr(c)[:200])
     # byte sizes of descriptor array operations
     n = 0
     for fn in lib.prod_funcs(prog, {MSG, SYS, TS}):
